@@ -2364,6 +2364,11 @@ PPL::Polyhedron::drop_some_non_integer_points(const Variables_Set* vars_p,
   PPL_ASSERT(con_sys.sys.OK());
 
   if (changed) {
+    // The (possibly pending) constraints of a C polyhedron were modified
+    // in place: generators are going to be out-of-date, hence no
+    // constraint can be flagged as pending any longer.
+    con_sys.unset_pending_rows();
+    clear_pending_constraints();
     if (is_necessarily_closed()) {
       con_sys.insert(Constraint::zero_dim_positivity());
     }
